@@ -334,9 +334,9 @@ def check(prop, tier, seed):
 def replay(prop, path):
     with open(path) as f:
         r = json.load(f)
-    if PROPS.get(prop, {}).get("special") == "c20":
+    if PROPS.get(prop, {}).get("special") in ("c20", "c17"):
         import specials
-        rc = specials.c20_replay(prop, r)
+        rc = getattr(specials, PROPS[prop]["special"] + "_replay")(prop, r)
         if rc == 1:
             say("VIOLATION property=%s replay=%s" % (prop, path))
         return rc
